@@ -60,6 +60,43 @@ theorem setResult_never_panics (r : Run) (wf : WF r) (ops : List Op) (g : Grp) (
   rw [((inv_after wf ops).owner g l h).1]
   simp
 
+/-- **cancel_only_when_unneeded**: `setResult` calls the cancel function of a pending request only when no group of
+that request's log still needs an SCT (`groupNeeds ≤ 0` for every group of the log, after the update) — the only
+cancellation of an in-flight request besides the caller's own context. With `needs_accounting`, each of those groups
+then already holds its minimum. -/
+theorem cancel_only_when_unneeded (c : Cfg) (s s' : Sub) (l : Log) (ok : Bool) (called : List Log)
+    (h : setResult c s l ok = some (s', called)) :
+    ∀ l' ∈ called, s.cancels l' = true ∧ ∀ g ∈ groupsOf c l', s'.needs g ≤ 0 := by
+  unfold setResult at h
+  cases ok
+  · simp at h
+    intro l' hl'
+    rw [h.2] at hl'
+    cases hl'
+  · simp only [Bool.not_true, Bool.false_eq_true, if_false, Option.map_eq_some_iff] at h
+    obtain ⟨s2, h2, hc⟩ := h
+    unfold afterCancel at hc
+    simp only [Prod.mk.injEq] at hc
+    obtain ⟨hs', hcalled⟩ := hc
+    intro l' hl'
+    rw [← hcalled] at hl'
+    simp only [List.mem_filter, Bool.and_eq_true, Bool.not_eq_true'] at hl'
+    have hcan : s.cancels l' = true := by
+      have := (afterBase_spec h2).2.2.2.2.2
+      rw [this] at hl'
+      exact hl'.2.1
+    refine ⟨hcan, ?_⟩
+    intro g hg
+    have hna := hl'.2.2
+    unfold awaited at hna
+    rw [List.any_eq_false] at hna
+    have := hna g hg
+    rw [← hs']
+    simpa using this
+
+example : ∃ s' called, setResult cfg2 (request cfg2 (request cfg2 (Sub.init cfg2) 1).1 2).1 1 true = some (s', called) ∧
+    called = [] := ⟨_, _, rfl, by decide⟩
+
 /-- Every contacted log is in the session of some group of the call, hence a member of that group. -/
 theorem contacted_in_groups (r : Run) (wf : WF r) (ops : List Op) (l : Log) (h : l ∈ (after r ops).submitted) :
     ∃ g ∈ r.cfg, l ∈ r.session g.name ∧ l ∈ g.logs := by
@@ -204,6 +241,105 @@ theorem only_compatible_contacted (p : Pol) (m notAfter : Int) (root : Option (N
   obtain ⟨h1, h2, h3, h4⟩ := mem_compatible hli
   exact ⟨li, h1, rfl, h2, h3, h4⟩
 
+/-- the chain's root is among the log's accepted roots, where those are known -/
+def rootAcceptedKnown (chainRoot : Nat) (li : LogInfo) : Prop :=
+  li.roots = none ∨ ∃ rs, li.roots = some rs ∧ chainRoot ∈ rs
+
+/- FULL (the property's clause): "… and whose accepted roots, where known, include the chain's root are contacted",
+   i.e. the conclusion below without the hypothesis `hroot`. With root checking enabled it is FALSE on a tree where
+   `Gen.Policy.fallbackKeepsKnownRootLogs = true` (finding F10c): when the chain does not verify against the merged
+   pool of known roots and some log with a client has no root data yet, `addSomeChain` passes no root at all to
+   `Compatible`, so logs whose KNOWN root sets exclude the chain's root are contacted as well
+   (`fallback_is_unfiltered`, and the `rootfallback` inputs of the harness). With fixes/C17-2.diff the regenerated
+   flag is `false` and `hroot` holds unconditionally. When the caller disabled root checking
+   (`DisableRootCompatibilityCheckingDistributorOption`) no root clause is claimed. -/
+/-- **only_compatible_contacted_dist**: the same with the root the distributor actually chooses (`chooseRoot`,
+anchored statement by statement to `addSomeChain`): every contacted log is usable and temporally compatible, and —
+when root checking is enabled and the chain verifies against the merged pool (or the fallback drops logs with known
+roots) — its accepted roots, where known, include the chain's root. -/
+theorem only_compatible_contacted_dist (p : Pol) (m notAfter : Int) (checkDisabled : Bool) (chainRoot : Nat)
+    (known : List (Option (List Nat))) (root : Option (Nat × Bool)) (ls : List LogInfo)
+    (hchoice : chooseRoot checkDisabled chainRoot known = some root)
+    (r : Run) (hc : policyCfg p m (compatible notAfter root ls) = some r.cfg) (wf : WF r) (ops : List Op) :
+    ∀ l ∈ (after r ops).submitted, ∃ li ∈ ls, li.id = l ∧ li.usable = true ∧ inWindow notAfter li ∧
+      (checkDisabled = false →
+        (chainRoot ∈ known.flatMap (fun k => k.getD []) ∨ Gen.Policy.fallbackKeepsKnownRootLogs = false) →
+        rootAcceptedKnown chainRoot li) := by
+  intro l hl
+  obtain ⟨li, h1, h2, h3, h4, h5⟩ := only_compatible_contacted p m notAfter root ls r hc wf ops l hl
+  refine ⟨li, h1, h2, h3, h4, ?_⟩
+  intro hdis hroot
+  unfold chooseRoot at hchoice
+  simp only [hdis, Bool.false_eq_true, if_false] at hchoice
+  have hsome : root = some (chainRoot, true) := by
+    split at hchoice
+    · cases hchoice; rfl
+    · rename_i hnm
+      split at hchoice
+      · cases hchoice
+      · split at hchoice
+        · rename_i hk
+          rcases hroot with hr | hr
+          · exact absurd hr hnm
+          · rw [hk] at hr; cases hr
+        · cases hchoice; rfl
+  subst hsome
+  exact h5.2
+
+/-- what the fallback does on this tree: root checking enabled, the chain's root in no known root set, root data
+incomplete ⇒ the compatibility filter is given no root (`some none`) iff the regenerated flag says so -/
+theorem fallback_is_unfiltered (chainRoot : Nat) (known : List (Option (List Nat)))
+    (h1 : chainRoot ∉ known.flatMap (fun k => k.getD [])) (h2 : known.all (fun k => k.isSome) = false) :
+    chooseRoot false chainRoot known =
+      if Gen.Policy.fallbackKeepsKnownRootLogs then some none else some (some (chainRoot, true)) := by
+  simp [chooseRoot, h1, h2]
+
+/-- the F10c shape: log 1 is known to accept only root 1, log 2 has no root data, the chain's root is 0 -/
+example : chooseRoot false 0 [some [1], none] =
+    (if Gen.Policy.fallbackKeepsKnownRootLogs then some none else some (some (0, true))) ∧
+    ((compatible 5 none [⟨1, true, true, none, some [1]⟩, ⟨2, false, true, none, none⟩]).map (·.id) = [1, 2]) ∧
+    ((compatible 5 (some (0, true)) [⟨1, true, true, none, some [1]⟩, ⟨2, false, true, none, none⟩]).map (·.id) = [2]) := by
+  decide
+
+/- Observation (not claimed by any theorem above): with `loadPendingLogs = true` `addSomeChain` starts a second,
+   discarded `GetSCTs` call on `pendingLogsPolicy.LogsByGroup(cert, d.pendingQualifiedLl)` — one base group over
+   every log in state Pending or Qualified, minimum `Gen.Policy.pendingIncCount` — concurrently with the main call,
+   with the same submitter and context and with NO temporal or root filter (checked by the extractor on the source).
+   The clause "only usable logs … are contacted" therefore holds for `loadPendingLogs = false`; for `true` the
+   additional contacts are exactly members of the pending/qualified list (`pending_call_contacts`), at most once
+   each, and — the two status classes being disjoint — no log is contacted by both calls (`no_double_submit_across_calls`). -/
+/-- **pending_call_contacts**: the second call contacts only logs of the pending/qualified list, each at most once -/
+theorem pending_call_contacts (pls : List LogInfo) (r : Run) (hc : pendingCfg pls = some r.cfg) (wf : WF r) (ops : List Op) :
+    (after r ops).submitted.Nodup ∧ ∀ l ∈ (after r ops).submitted, ∃ li ∈ pls, li.id = l := by
+  refine ⟨no_double_submit r wf ops, ?_⟩
+  intro l hl
+  obtain ⟨g, hg, _, hlg⟩ := contacted_in_groups r wf ops l hl
+  unfold pendingCfg at hc
+  dsimp only at hc
+  split at hc
+  · have hcfg : r.cfg = _ := (Option.some.inj hc).symm
+    rw [hcfg] at hg
+    simp only [List.mem_cons, List.not_mem_nil, or_false] at hg
+    subst hg
+    simp only [mem_dedup, List.mem_map] at hlg
+    exact hlg
+  · cases hc
+
+/-- **no_double_submit_across_calls**: when no URL is both in the usable part and in the pending/qualified part of
+the log list, the main call and the pending-logs call never contact the same log -/
+theorem no_double_submit_across_calls (p : Pol) (m notAfter : Int) (root : Option (Nat × Bool)) (ls pls : List LogInfo)
+    (hdisj : ∀ a ∈ ls, a.usable = true → ∀ b ∈ pls, a.id ≠ b.id)
+    (r1 r2 : Run) (h1 : policyCfg p m (compatible notAfter root ls) = some r1.cfg) (h2 : pendingCfg pls = some r2.cfg)
+    (wf1 : WF r1) (wf2 : WF r2) (ops1 ops2 : List Op) :
+    ∀ l ∈ (after r1 ops1).submitted, l ∉ (after r2 ops2).submitted := by
+  intro l hl1 hl2
+  obtain ⟨a, ha, hal, hau, _, _⟩ := only_compatible_contacted p m notAfter root ls r1 h1 wf1 ops1 l hl1
+  obtain ⟨b, hb, hbl⟩ := (pending_call_contacts pls r2 h2 wf2 ops2).2 l hl2
+  exact hdisj a ha hau b hb (hal.trans hbl.symm)
+
+example : pendingCfg [⟨7, false, false, none, none⟩, ⟨8, true, false, some (0, 1), some []⟩] = some [⟨0, [7, 8], 1, true⟩] ∧
+    pendingCfg [] = none := by decide
+
 /-- instance: a list with an unusable log, a log whose window has passed and a log with other roots -/
 def lsMixed : List LogInfo := [⟨1, true, true, none, none⟩, ⟨2, false, true, some (0, 100), some [7]⟩,
   ⟨3, false, false, none, none⟩, ⟨4, false, true, some (0, 50), none⟩, ⟨5, true, true, none, some [8]⟩]
@@ -227,30 +363,42 @@ theorem liveness_counterexample :
     (∀ g ∈ run2.cfg, g.min ≤ ((([1, 2] : List Log).filter (fun l => decide (l ∈ g.logs))).length : Int)) := by
   decide
 
-/- FULL (the property's clause): "when enough compatible logs eventually answer successfully and the caller does
-   not cancel, GetSCTs reports success" — i.e. the conclusion below without the hypothesis `hearly`. That statement
-   is FALSE for this code: `liveness_counterexample` (finding F10a). What is missing is exactly `hearly`: no group
-   race may have ended unsuccessfully before the requests completed; in the timed code a group race without
-   cancellation ends unsuccessfully only after its last timer fired (i · PostBatchInterval), so `hearly` holds
-   whenever every request completes before the base group's last timer. -/
+/- FULL (the property's clause): "when enough compatible logs eventually answer successfully and the caller does not
+   cancel, GetSCTs reports success". It is FALSE for this code (`liveness_counterexample`, finding F10a).
+   `liveness_partial` proves it under four hypotheses; the first three make the words of the clause precise, the fourth
+   is the genuine restriction:
+   * `henough` + `hbad` — "enough logs answer successfully": `bad` is any set of logs containing every log that has
+     answered with an error (and every log that hangs); each group keeps at least its minimum of members outside
+     `bad`. Failures and hangs of logs that are not needed for the minima are allowed.
+   * `hfin` — "eventually": the schedule has been run until every goroutine has either finished or is stuck inside
+     `SubmitToLog` for a `bad` (hanging) log, i.e. every request to a log outside `bad` has completed and every
+     timer has fired. (`terminates` + `no_deadlock`: every schedule can be extended to such a state.)
+   * `hctx`, `hnc` — "the caller does not cancel".
+   * `hearly` — NOT part of the clause: no group race has ended unsuccessfully before that moment. In the timed code
+     a group race without cancellation ends unsuccessfully only after its last timer fired (i · PostBatchInterval)
+     and all its goroutines were refused or answered, so `hearly` holds whenever every needed request completes
+     before the last timer of every group. Without `hearly` the statement is false (F10a). -/
 /-- **liveness_partial** (Chrome policy): the groups are the ones `ChromeCTPolicy.LogsByGroup` builds from a log
-list with distinct URLs, every member of a group is in its submission session (positive weights), and `ops1` is any
-schedule after which the caller has not cancelled, no contacted log has failed, every goroutine has finished (every
-request completed) and no group race has ended unsuccessfully. Then every group is complete, and whatever
-happens next without cancellation (`ops2`), if `GetSCTs` returns it returns a nil error. -/
+list with distinct URLs and every member of a group is in its submission session (positive weights). Then, under
+the hypotheses explained above, every group is complete, and whatever happens next without cancellation (`ops2`),
+if `GetSCTs` returns it returns a nil error. -/
 theorem liveness_partial (m : Int) (ls : List LogInfo) (r : Run) (hc : policyCfg .chrome m ls = some r.cfg)
     (hid : (ls.map (·.id)).Nodup) (wf : WF r) (hsess : ∀ g ∈ r.cfg, ∀ l ∈ g.logs, l ∈ r.session g.name)
-    (ops1 ops2 : List Op)
+    (bad : Log → Bool) (ops1 ops2 : List Op)
     (hctx : (after r ops1).ctx = false)
-    (hok : ∀ l, (after r ops1).sub.results l ≠ some .err)
-    (hfin : ∀ g ∈ names r.cfg, ∀ l ∈ r.session g, (after r ops1).gor g l = .finished)
+    (hbad : ∀ l, (after r ops1).sub.results l = some .err → bad l = true)
+    (henough : ∀ g ∈ r.cfg, g.min ≤ ((g.logs.filter (fun l => !bad l)).length : Int))
+    (hfin : ∀ g ∈ names r.cfg, ∀ l ∈ r.session g,
+      (after r ops1).gor g l = .finished ∨ ((after r ops1).gor g l = .inflight ∧ bad l = true))
     (hearly : ∀ g, (after r ops1).gdone g ≠ some false)
     (hret : (after r ops1).ret = none)
     (hnc : Op.ctxDone ∉ ops2) :
     (∀ g ∈ r.cfg, (after r ops1).sub.needs g.name ≤ 0) ∧
     ∀ res e, (exec r (after r ops1) ops2).ret = some (res, e) → e = false := by
-  obtain ⟨G, N, B, sh, hG, hN, hB⟩ := chrome_shape_of_policy hc hid
-  have hall := chrome_all_complete wf sh hsess hG hN hB ops1 hctx hok hfin
+  obtain ⟨G, N, B, sh, _, _, _⟩ := chrome_shape_of_policy hc hid
+  have hmem : G ∈ r.cfg ∧ N ∈ r.cfg ∧ B ∈ r.cfg := by simp [sh.cfg_eq]
+  have hall := chrome_all_complete bad wf sh hsess (henough G hmem.1) (henough N hmem.2.1) (henough B hmem.2.2)
+    ops1 hctx hbad hfin
   refine ⟨hall, ?_⟩
   have hi := inv_after wf ops1
   have hd : Done r (after r ops1) := {
@@ -268,17 +416,20 @@ theorem liveness_partial (m : Int) (ls : List LogInfo) (r : Run) (hc : policyCfg
 /-- **liveness_partial_apple**: the same for the single group `AppleCTPolicy.LogsByGroup` builds. -/
 theorem liveness_partial_apple (m : Int) (ls : List LogInfo) (r : Run) (hc : policyCfg .apple m ls = some r.cfg)
     (wf : WF r) (hsess : ∀ g ∈ r.cfg, ∀ l ∈ g.logs, l ∈ r.session g.name)
-    (ops1 ops2 : List Op)
+    (bad : Log → Bool) (ops1 ops2 : List Op)
     (hctx : (after r ops1).ctx = false)
-    (hok : ∀ l, (after r ops1).sub.results l ≠ some .err)
-    (hfin : ∀ g ∈ names r.cfg, ∀ l ∈ r.session g, (after r ops1).gor g l = .finished)
+    (hbad : ∀ l, (after r ops1).sub.results l = some .err → bad l = true)
+    (henough : ∀ g ∈ r.cfg, g.min ≤ ((g.logs.filter (fun l => !bad l)).length : Int))
+    (hfin : ∀ g ∈ names r.cfg, ∀ l ∈ r.session g,
+      (after r ops1).gor g l = .finished ∨ ((after r ops1).gor g l = .inflight ∧ bad l = true))
     (hearly : ∀ g, (after r ops1).gdone g ≠ some false)
     (hret : (after r ops1).ret = none)
     (hnc : Op.ctxDone ∉ ops2) :
     (∀ g ∈ r.cfg, (after r ops1).sub.needs g.name ≤ 0) ∧
     ∀ res e, (exec r (after r ops1) ops2).ret = some (res, e) → e = false := by
-  obtain ⟨B, sh, hB⟩ := apple_shape_of_policy hc
-  have hall := apple_all_complete wf sh hsess hB ops1 hctx hok hfin
+  obtain ⟨B, sh, _⟩ := apple_shape_of_policy hc
+  have hmem : B ∈ r.cfg := by simp [sh.cfg_eq]
+  have hall := apple_all_complete bad wf sh hsess (henough B hmem) ops1 hctx hbad hfin
   refine ⟨hall, ?_⟩
   have hi := inv_after wf ops1
   have hd : Done r (after r ops1) := {
@@ -292,6 +443,20 @@ theorem liveness_partial_apple (m : Int) (ls : List LogInfo) (r : Run) (hc : pol
     recvd := fun g hr => hearly g (hi.recvd_gdone g false hr)
     ret := by intro ls e h; rw [hret] at h; cases h }
   exact (done_exec ops2 hd hnc).ret
+
+/-- an Apple instance with a failing and a hanging log: five logs, 12-month certificate (two SCTs needed); log 1
+answers with an error, log 2 hangs (`bad = {1, 2}`), logs 3 and 4 answer; the hypotheses of
+`liveness_partial_apple` hold in the state reached and the call then returns successfully -/
+def runA5 : Run := ⟨[⟨0, [1, 2, 3, 4, 5], 2, true⟩], fun g => if g = 0 then [1, 2, 3, 4, 5] else []⟩
+def opsA5 : List Op := [.timerFire 0 1, .request 0 1, .timerFire 0 2, .request 0 2, .setResult 0 1 false,
+  .timerFire 0 3, .request 0 3, .timerFire 0 4, .request 0 4, .setResult 0 3 true, .setResult 0 4 true, .timerFire 0 5]
+example :
+    (∀ l ∈ [1, 2, 3, 4, 5], (exec runA5 (St.init runA5) opsA5).sub.results l = some .err → (l == 1 || l == 2) = true) ∧
+    (∀ l ∈ [1, 2, 3, 4, 5], (exec runA5 (St.init runA5) opsA5).gor 0 l = .finished ∨
+      ((exec runA5 (St.init runA5) opsA5).gor 0 l = .inflight ∧ (l == 1 || l == 2) = true)) ∧
+    (exec runA5 (St.init runA5) opsA5).gor 0 2 = .inflight ∧
+    (exec runA5 (St.init runA5) opsA5).gdone 0 = none ∧
+    (exec runA5 (St.init runA5) (opsA5 ++ [.groupDone 0, .recv 0, .collect])).ret = some ([3, 4], false) := by decide
 
 /-- an Apple instance: three logs, a 12-month certificate (two SCTs needed); two answer, then the third goroutine
 sees the group complete -/
@@ -327,6 +492,14 @@ theorem lock_table_guarded : ∀ a ∈ Gen.Policy.lockTable, sufficient a = true
 
 example : 30 ≤ (Gen.Policy.lockTable.filter (fun a => !a.ctor)).length ∧
     (Gen.Policy.lockTable.filter (fun a => !a.ctor && a.write)).length ≥ 10 := by decide
+
+/-- **guard_list_complete**: the guard list the table is built from misses nothing that is written while shared: the
+extractor finds by itself every struct of `ctpolicy/` and `submission/` that carries a `sync.Mutex` / `sync.RWMutex`
+(each must have a guard-list entry or extraction fails) and emits every write to a field of such a struct that is
+NOT in its guarded list and happens outside the construction / initialisation functions. There is none. -/
+theorem guard_list_complete : Gen.Policy.unlistedSharedWrites = [] := by decide
+
+example : Gen.Policy.mutexStructs.length = 6 ∧ "Proxy" ∈ Gen.Policy.mutexStructs := by decide
 
 /-- every write to a guarded field of the submission state machine itself happens under `mu` -/
 theorem submission_state_fully_guarded :
